@@ -20,6 +20,8 @@ pub mod classifier;
 pub mod enhanced;
 pub mod link_cc;
 mod quality;
+#[cfg(feature = "verif-hooks")]
+pub mod verif_hooks;
 
 // Re-export for backward compatibility
 pub use quality::calculate_quality_multiplier;
